@@ -59,7 +59,7 @@ def run(repo, rep, tier):
                 rep.fail("R-C18-1", f, ln, f"{c.qualname}.{_origin(cons, fi)}", cons,
                          f"instance attribute '{attr}' of the cached accessor holds state derived from the wrapped "
                          f"object{'' if init else ' and is written at call time'}: later calls see the old value after "
-                         "the object is edited in place")
+                         "the object is edited in place", anchor=f"{c.name}:instance-store:{attr}")
             for (r, rp), eff in s.effects.items():
                 if r.startswith("selfstate:") and mname != "__init__":
                     rep.fail("R-C18-1", eff.file, eff.line, fi.qualname, eff.construct,
@@ -80,7 +80,7 @@ def run(repo, rep, tier):
         reach = sorted({x[0].short for x in lst})
         rep.fail("R-C18-2", f, eff.line, fn, f"{cons}  [module-level {root[2:]}]",
                  f"{eff.what}: persistent module-level object written at call time; reachable from {len(reach)} public "
-                 f"entry points (e.g. {', '.join(reach[:4])})", list(eff.via))
+                 f"entry points (e.g. {', '.join(reach[:4])})", list(eff.via), anchor=f"module-write:{root[2:]}")
     # mutable default arguments that are written: effect on own parameter whose default is a mutable literal
     ndef = 0
     for fi in repo.all_funcs():
